@@ -68,6 +68,25 @@ CHECKS = {
                 "theorem only. 'Latest request wins' is how the statement is read for repeated bans of one address. No axioms.",
         "technique": "Coq proof over a history model of the ban list + wire-level history correspondence on the real server",
     },
+    "C19": {
+        "text": "Model Srv/Board.v: a text store with ONE shared read cursor (Seek, chunked Read, prepending Write that persists), "
+                "io.ReadAll as 'read chunks of any positive capacity until the empty chunk', critical sections in the order a lock "
+                "admits them, and - for contrast - the unlocked interleaving of readers' atomic steps. Theorems (Props/C19.v): "
+                "cursor_use_is_serialised (over Gen/Locks.v, REGENERATED from the sources each run: every Seek/Read/ReadAll/Write on "
+                "Server.MessageBoard and Server.Agreement is inside a Lock()..Unlock() section, one mutex per store, the three users "
+                "present); read_is_whole (rewind + read-to-end returns the complete current text for every cursor position and every "
+                "chunking, changing neither text nor file); every_history (for EVERY order of any number of posters and readers: each "
+                "reader gets the text current at its turn, the final board is all posts newest first on the initial text, the file "
+                "equals the board once a post was made); no_post_lost_newest_first; unlocked_cursor_refuted (two readers, witness "
+                "schedule); post_has_no_line_feed. Correspondence: real HandleTranOldPostNews / HandleGetMsgs on a real FlatNews "
+                "(format incl. names with line feeds, announcement to every connected user, file after each acknowledged post, restart "
+                "from the file), concurrent batches (2-8 readers x 3-8 reads, 1-4 posters, released together): every read must equal a "
+                "version of the board in the order the final board shows, no post lost; 2-15 simultaneous wire logins each shown the "
+                "agreement (0 B ... 65,535 B) exactly.",
+        "note": "Scheduling is the runtime's: the theorems cover all lock orders, the concurrent runs are a search. The two shared-cursor "
+                "races of the pinned tree were repaired earlier (board lock, 46e42ce agreement lock); their reversals are seeds. No axioms.",
+        "technique": "Coq proof over a shared-cursor store model and all lock orders + translator-checked critical sections + concurrent differential runs on the real handlers",
+    },
     "C20": {
         "text": "Model FS/Crash.v: a directory as a map from file names to contents, six system calls (create/truncate, exclusive create, "
                 "write, rename, link, unlink), the script of calls of each persistent update AS REPAIRED (temporary file + rename for the "
